@@ -97,3 +97,30 @@ func (p *StreamPool) VerifQueued() (maxPages, queuedPages int, oldestHead time.T
 	}
 	return
 }
+
+// VerifBuffered reports, without taking connection locks (single-goroutine use
+// only), the largest number of pages one open half-connection holds, counted
+// by walking both its queue of out-of-order pages and the pages kept on
+// request of the stream.
+func (p *StreamPool) VerifBuffered() (maxPages int) {
+	p.mu.RLock()
+	defer p.mu.RUnlock()
+	for _, c := range p.conns {
+		for _, h := range []*halfconnection{&c.c2s, &c.s2c} {
+			if h.closed {
+				continue
+			}
+			n := 0
+			for pg := h.first; pg != nil; pg = pg.next {
+				n++
+			}
+			for pg := h.saved; pg != nil; pg = pg.next {
+				n++
+			}
+			if n > maxPages {
+				maxPages = n
+			}
+		}
+	}
+	return
+}
